@@ -177,6 +177,19 @@ def p_ext_call_arg(I, args, kwargs, node):
     return VStr(z3.String('no_such_ext_arg'))
 
 
+def p_ext_call_kwarg(I, args, kwargs, node):
+    """keyword argument `kw` of the k-th external call `name` (None if it was not passed)"""
+    from .values import NONE
+    nm, k, kw = [_m.concretise(a) for a in args]
+    rs = [r for r in I.ghost.get('ext_trace', []) if r['name'] == nm]
+    if k < len(rs):
+        return rs[k]['kwargs'].get(kw, NONE)
+    return VStr(z3.String('no_such_ext_call'))
+
+
+PRIMS['ext_call_kwarg'] = p_ext_call_kwarg
+
+
 def p_ext_call_result(I, args, kwargs, node):
     nm, k = [_m.concretise(a) for a in args]
     rs = [r for r in I.ghost.get('ext_trace', []) if r['name'] == nm and 'result' in r]
